@@ -23,13 +23,14 @@ type Scenario struct {
 	Cuts     [][]int  `json:"per_doc_cuts,omitempty"`
 	Scribble bool     `json:"scribble"`
 	Reset    bool     `json:"reset_between_docs,omitempty"`
+	ReEnable []int    `json:"enable_key_cache_again_before_doc,omitempty"` // capacity per document index, -1 = no call
 }
 
 type Engine struct{}
 
 var capacities = []int{0, 1, 2, 3, 5, 64, 1000}
 
-var targets = []string{"map[string]interface{}", "map[string]string", "map[string]int", "map[string]map[string]string",
+var targets = []string{"TwoMaps", "map[MyStr]Simple", "map[string]interface{}", "map[string]string", "map[string]int", "map[string]map[string]string",
 	"map[string]Simple", "[]map[string]interface{}", "interface{}", "map[string][]int", "Strs", "NamedMap"}
 
 type keyGen struct {
@@ -166,7 +167,24 @@ func (g *keyGen) forTarget(target string) model.Val {
 			}
 			return a
 		})
-	case "map[string]Simple":
+	case "TwoMaps":
+		simple := func() model.Val {
+			return model.Val{K: model.VObj, Keys: []string{"a", "b"}, A: []model.Val{model.Int(int64(c.N(100))), text()}}
+		}
+		ints := func() model.Val {
+			a := model.Val{K: model.VArr}
+			for i, k := 0, c.Small(3); i < k; i++ {
+				a.A = append(a.A, model.Int(int64(c.N(100))))
+			}
+			return a
+		}
+		inner := func() model.Val {
+			return model.Val{K: model.VObj, Keys: []string{"x", "z"}, A: []model.Val{model.Int(int64(c.N(100))), text()}}
+		}
+		// the same key texts in maps with different (named) key types
+		return model.Val{K: model.VObj, Keys: []string{"a", "b", "c"},
+			A: []model.Val{g.obj(c.Small(6), simple), g.obj(c.Small(6), ints), g.obj(c.Small(6), inner)}}
+	case "map[string]Simple", "map[MyStr]Simple":
 		return g.obj(n, func() model.Val {
 			return model.Val{K: model.VObj, Keys: []string{"a", "b", "c"}, A: []model.Val{model.Int(int64(c.N(100))), text(), model.Bool(c.Bool())}}
 		})
@@ -210,6 +228,9 @@ func run(sc *Scenario, docs [][]byte, te *model.TypeEntry, cd *common.Codec, cap
 		}
 		var keep []func() interface{}
 		for i, d := range docs {
+			if capacity >= 0 && i < len(sc.ReEnable) && sc.ReEnable[i] >= 0 {
+				u.EnableKeyCache(sc.ReEnable[i]) // configured again while in use
+			}
 			ptr, _, val := te.NewTarget()
 			if err := u.SetTarget(ptr); err != nil {
 				errs = append(errs, err)
@@ -273,6 +294,15 @@ func (Engine) Run(c *simkit.Choices, x *simkit.Ctx) *simkit.Violation {
 			sortInts(cuts)
 		}
 		sc.Cuts = append(sc.Cuts, cuts)
+		re := -1
+		if i > 0 && c.N(6) == 0 {
+			re = capacity
+			if c.N(3) == 0 {
+				re = capacities[c.N(len(capacities))]
+			}
+			st.Fault("key-cache-enabled-again")
+		}
+		sc.ReEnable = append(sc.ReEnable, re)
 	}
 	for _, k := range g.alpha {
 		distinctKeys[k] = true
